@@ -29,11 +29,24 @@ ANCHORED = [
     ('cherrypy.lib.encoding', ['prepare_iter']),
 ]
 
-# why a line that never runs cannot run in this harness (matched by substring of the source line)
-EXPLAINED = {
-    'if self.throw_errors:': 'throw_errors is off in the statement',
-    'raise cherrypy.NotFound()': 'Request.app is never None for a request created by get_serving',
-}
+# why a line that never runs cannot run in this harness: (function, substring of the source line, reason)
+EXPLAINED = [
+    ('Request.run', 'raise', 'request.throw_errors is off in the statement'),
+    ('Request.respond', 'raise', 'request.throw_errors is off in the statement'),
+    ('Request._do_respond', 'raise cherrypy.NotFound()', 'Request.app is never None for a request created by Application.get_serving'),
+    ('_TrappedResponse.trap', 'raise', 'KeyboardInterrupt / SystemExit are excluded by the statement; start_response supplied by the server '
+                                       'does not raise (assumption)'),
+    ('_TrappedResponse.trap', 'except Exception:', 'start_response supplied by the server does not raise (assumption)'),
+    ('_TrappedResponse.trap', '_cherrypy.log(traceback=True', 'start_response supplied by the server does not raise (assumption)'),
+    ('get_error_page', 'except ValueError:', 'HTTPError.set_response passes a status its constructor validated; only a direct call '
+                                             'of get_error_page by user code gets here'),
+    ('get_error_page', 'raise cherrypy.HTTPError(500', 'as above'),
+    ('get_error_page', "kwargs['message'] = message", 'HTTPError always passes its message; only a direct call gets here'),
+    ('get_error_page', "kwargs[k] = ''", 'HTTPError passes no None values; only a direct call gets here'),
+    ('format_exc', "return ''", 'only outside an except block'),
+    ('is_closable_iterator', 'return False', 'AppResponse.iter_response is the result of iter(): always an iterator'),
+    ('is_iterator', 'return False', 'AppResponse.iter_response is the result of iter(): always an iterator'),
+]
 
 
 def _funcs(obj):
@@ -140,14 +153,18 @@ class Coverage(object):
         ex = self.executable()
         missed = sorted((f, l, q) for f, l, q in ex if (f, l) not in self.hit)
         lines = []
+        unexplained = 0
         for f, l, q in missed:
             src = linecache.getline(f, l).strip()
             rel = f.split(os.sep + 'cherrypy' + os.sep, 1)[-1]
-            lines.append('%s:%d %s: %s' % (rel, l, q, src[:100]))
+            why = [w for fn, sub, w in EXPLAINED if q.endswith(fn) and sub in src]
+            if not why:
+                unexplained += 1
+            lines.append('%s:%d %s: %s%s' % (rel, l, q, src[:100], '   [%s]' % why[0] if why else ''))
         ctx.extra['anchored_lines_executable'] = len(ex)
         ctx.extra['anchored_lines_executed'] = len(ex) - len(missed)
         ctx.extra['anchored_lines_not_executed'] = lines
-        ctx.extra['anchored_lines_explained'] = EXPLAINED
+        ctx.extra['anchored_lines_not_executed_unexplained'] = unexplained
         if self.missing_anchors:
             ctx.extra['anchored_functions_not_found'] = self.missing_anchors
         ctx.count('anchored_lines_not_executed', len(lines))
